@@ -595,8 +595,9 @@ public:
   }
 
   bool at(const element_t &e) const{
+    // e belongs to the set iff *this is at least as precise as {e}
     dual_set_domain_t s(e);
-    return (s <= *this);
+    return (*this <= s);
   }
   
   std::size_t size() { return m_set.size(); }
